@@ -299,6 +299,15 @@ class Initializers(Facet):
                     f"C15/initializer/{name.split('-')[0]}/{'over' if n > k else 'under'}",
                     f"{name} initialiser asked for {k} yielded {n}" + (f" (injected {min(case['injected'], k + 3)} programs)" if name.startswith("inject") else ""),
                 )
+                return
+            k2 = 1 + (k + 3) % 9
+            try:
+                n2 = len(list(init.initialize(problem, w.rep, w.random, k2)))
+            except Exception as e:  # noqa: BLE001
+                rec.fail(f"C15/initializer-reused/{name.split('-')[0]}/raised-{type(e).__name__}", f"the same {name} initialiser asked for {k} and then for {k2}: raised {e!r}")
+                return
+            if n2 != k2:
+                rec.fail(f"C15/initializer-reused/{name.split('-')[0]}/{'over' if n2 > k2 else 'under'}", f"the same {name} initialiser object asked for {k} and then for {k2} yielded {n2} the second time")
         finally:
             w.cleanup()
 
